@@ -16,7 +16,7 @@ import tapecommon as tc
 
 LEVEL = "proof"
 NS = "Adept.RecBuf."
-REQUIRED = ["C09_every_recording_call_reserved", "C09_site_diag_vector", "C09_site_element_temporary", "C09_site_matmul",
+REQUIRED = ["C09_node_traits_consistent", "C09_every_recording_call_reserved", "C09_site_diag_vector", "C09_site_element_temporary", "C09_site_matmul",
             "C09_check_reserves", "C09_lhs_safe", "C09_disciplined_safe", "C09_no_fault_any_capacity",
             "C09_counts_capacity_independent", "C09_preallocate_harmless", "C09_site_scalar", "C09_site_copy",
             "C09_site_dependence", "C09_site_array_assign", "C09_site_array_from_scalar", "C09_site_conditional"]
